@@ -1,5 +1,6 @@
 import Driver.State
 import IpfixModel.Model.Exporter
+import IpfixModel.Model.Lifecycle
 import IpfixModel.Spec.C16
 import Driver.EngDec
 namespace Driver
@@ -68,8 +69,8 @@ def parseRecsDesc (tok : String) : Option (List (Nat × List Elem)) :=
       pure (tid, es)
     | _ => none
 
-/-- engine "exp" -/
-def engExp (st : ExpState) (a : List String) : ExpState × String :=
+/-- engine "exp": the ops that touch the sequential exporter model only -/
+def engExp1 (st : ExpState) (a : List String) : ExpState × String :=
   match a with
   | ["new", dom] =>
     match dom.toNat? with
@@ -83,24 +84,46 @@ def engExp (st : ExpState) (a : List String) : ExpState × String :=
   | ["tids"] =>
     let ids := (st.templates.map (·.1)).toArray.qsort (· < ·) |>.toList
     (st, "tids " ++ joinOr "," (ids.map toString))
+  | _ => (st, "bad-op")
+
+/-- insertion sort of the recorded templates by id (the harness reports a refresh sorted by id) -/
+def sortTpls (l : List (Nat × List IE)) : List (Nat × List IE) := l.foldl (fun acc x => Life.insertBy id x acc) []
+
+/-- engine "exp"; the second state component is templatesMap[id].elements (Model/Lifecycle.lean) -/
+def engExp (stp : ExpState × List (Nat × List IE)) (a : List String) : (ExpState × List (Nat × List IE)) × String :=
+  let st := stp.1
+  let lift (r : ExpState × String) : (ExpState × List (Nat × List IE)) × String := ((r.1, stp.2), r.2)
+  match a with
+  | ["new", dom] =>
+    match dom.toNat? with
+    | some d => (({ dom := d }, []), "ok")
+    | none => (stp, "bad-op")
+  | ["refresh"] =>
+    -- sendRefreshedTemplates: one MakeTemplateSet + SendSet per recorded template; here in id order
+    match Life.buildAll (sortTpls stp.2) with
+    | none => (stp, "err -")
+    | some sets =>
+      let step := fun (acc : ExpState × List Bytes × Bool) (s : SetB) =>
+        if acc.2.2 then acc
+        else match acc.1.sendBuilt 0 s with
+          | (st', .ok _ w) => (st', acc.2.1 ++ [w], false)
+          | (st', .err) => (st', acc.2.1, true)
+      let r := sets.foldl step (st, [], false)
+      let w := if r.2.1.isEmpty then "-" else "+".intercalate (r.2.1.map hexOrDash)
+      if r.2.2 then ((r.1, stp.2), s!"err {w}") else ((r.1, stp.2), s!"ok {r.2.1.length} {w} timeok")
   | ["send", path, t, setid, recs] =>
     match parseSetType t, setid.toNat?, parseRecsDesc recs with
     | some ty, some sid, some rs =>
       let d : SetDesc := { ty := ty, setId := sid, recs := rs }
-      -- a trailing `r` on the path = the application recycled one set (ResetSet + PrepareSet): by
-      -- C16 `reset_like_new` that is the same set as a new one
       match d.build (path == "2" || path == "2r") with
-      | none =>
-        -- template record with a non-empty value through AddRecord: the builder refuses;
-        -- a data record with an unencodable value: the send must fail with nothing written
-        if ty = .data then (st, "err -") else (st, "builderr")
+      | none => if ty = .data then (stp, "err -") else (stp, "builderr")
       | some s =>
         let (st', r) := st.sendBuilt 0 s
         match r with
-        | .ok n w => (st', s!"ok {n} {hexOrDash w} timeok")
-        | .err => (st', "err -")
-    | _, _, _ => (st, "bad-op")
-  | _ => (st, "bad-op")
+        | .ok n w => ((st', if s.ty = .template then Life.recordTemplates stp.2 s else stp.2), s!"ok {n} {hexOrDash w} timeok")
+        | .err => ((st', stp.2), "err -")
+    | _, _, _ => (stp, "bad-op")
+  | _ => lift (engExp1 st a)
 
 /-- `chk bld obs | <ty> <length> <hdr> <n> <recs> <msg>` : Spec.C16.holdsObs on the implementation's observation -/
 def chkBld (a : List String) : String :=
@@ -142,7 +165,7 @@ def engE2E (s : DState) (a : List String) : DState × String :=
     match parseSetType t, setid.toNat?, parseRecsDesc recs with
     | some ty, some sid, some rs =>
       let d : SetDesc := { ty := ty, setId := sid, recs := rs }
-      match d.build (path == "2") with
+      match d.build (path == "2" || path == "2r") with
       | none => if ty = .data then (s, "err") else (s, "builderr")
       | some b =>
         let (st', r) := s.e2eExp.sendBuilt 0 b
@@ -184,7 +207,7 @@ def chkE2E (st : E2ESpecState) (a : List String) : E2ESpecState × String :=
   let (op, obs) := splitBar a
   match op with
   | ["open", _, _, _, d] => (((d.toNat?).getD 0, []), "holds")
-  | ["close"] => (st, "na")
+  | ["close"] => (st, if obs == ["ok"] then "holds" else "fails delivered-message-changed-later")
   | ["send", _path, t, setid, recs] =>
     match parseSetType t, parseRecsDesc recs with
     | some ty, some rs =>
@@ -241,6 +264,14 @@ def chkExp (t : ExpSpec.Tracker) (a : List String) : ExpSpec.Tracker × String :
     | none => (t, "bad-op")
   | ["getseq"] => (t, "na")
   | ["tids"] => (t, "na")
+  | ["refresh"] =>
+    match obs with
+    | ["ok", _n, w, tk] =>
+      match parseWrites w with
+      | some ws => (t, ExpSpec.refreshVerdict t ws (tk == "timeok"))
+      | none => (t, "fails obs")
+    | "err" :: _ => (t, "fails c02:refresh-error")
+    | _ => (t, "fails obs")
   | ["send", _path, ty, setid, recs] =>
     match parseSetType ty, setid.toNat?, parseRecsDesc recs with
     | some ty, some sid, some rs =>
